@@ -91,12 +91,9 @@ def do_replay(prop: str, path: str) -> int:
 
 
 def known_finding_matches(finding: dict, violation: dict, trace: dict) -> bool:
-    if finding['property'] != violation['prop'] or finding.get('clause') not in (None, violation['clause']):
-        return False
-    sub = finding.get('msg_contains')
-    if sub and sub not in violation['msg']:
-        return False
-    return True
+    # engines attribute violations to listed findings themselves (sim/findings.py predicates evaluated on
+    # the failing state); nothing is suppressed here
+    return False
 
 
 def main(argv=None) -> int:
@@ -154,7 +151,7 @@ def main(argv=None) -> int:
         payload = core.read_replay(rp)
         eng = engine_factory(payload['engine'])()
         res = eng.replay(payload['trace'], prop)
-        if any(v.prop == prop and v.clause == f.get('clause') for v in res.violations):
+        if f['id'] in res.known_hits or any([v.prop, v.clause] in f['clauses'] for v in res.violations):
             _print(f'KNOWN-FINDING: property={prop} {f["what"]} (replay={f["replay"]})')
         else:
             _print(f'note: listed finding {f["id"]} no longer reproduces')
